@@ -51,6 +51,7 @@
         old(context).total_variables < usize::MAX, old(context).slack_index < usize::MAX, old(context).surplus_index < usize::MAX,
     ensures
         final(context).total_variables == old(context).total_variables,
+        final(context).slack_index <= old(context).slack_index + 1, final(context).surplus_index <= old(context).surplus_index + 1,
         res matches Ok((eq, added)) ==> {
             let n = old(context).total_variables as int;
             &&& fin_seq(eq.coefficients@) && finite(eq.rhs)
